@@ -27,7 +27,6 @@ use liwe::model::Key;
 use liwe::model::{self, InlineRange};
 
 use liwe::parser::Parser;
-use relative_path::RelativePath;
 
 use super::LspClient;
 use super::ServerConfig;
@@ -309,7 +308,8 @@ impl Server {
             ))
         })
         .map(|url| {
-            let relative_url = RelativePath::new(&relative_to).join(url).to_string();
+            // resolved like every other reference ("../a" from d/n is the note a, not d/../a)
+            let relative_url = Key::from_rel_link_url(&url, &relative_to).to_string();
             GotoDefinitionResponse::Scalar(Location::new(
                 self.base_path.relative_to_full_path(&relative_url),
                 Range::default(),
@@ -482,6 +482,22 @@ impl Server {
             return Result::Err(ResponseError {
                 code: 1,
                 message: format!("The file name {} is already taken", params.new_name),
+                data: None,
+            });
+        }
+
+        // a name that is no name of a note (nothing, a directory, an anchor) is refused: the
+        // links rewritten to it would not be references
+        let name = params.new_name.as_str();
+        if name.is_empty()
+            || name.ends_with('/')
+            || name.chars().all(|c| c == '.' || c == '/')
+            || name.starts_with('#')
+            || name.starts_with('?')
+        {
+            return Result::Err(ResponseError {
+                code: 1,
+                message: format!("{} is not the name of a note", params.new_name),
                 data: None,
             });
         }
